@@ -61,7 +61,7 @@ func Discharge(vcs []*FuncVC, opts RunOpts) {
 				if j.o.Cover && opts.Hints != nil && !opts.Fresh {
 					// vacuity guards: a guard whose query text is byte-identical to one recorded as "not refuted"
 					// needs no new run (same text, same answer); any change to the text re-runs it
-					qh := "cover:" + lineHash(q)
+					qh := "cover:" + rawHash(q)
 					if hs := opts.Hints.Get(j.o.Name); len(hs) == 1 && len(hs[0]) == 1 && hs[0][0] == qh {
 						j.o.Result = SolverResult{Status: "unknown", Solver: "recorded"}
 						j.o.OK = true
@@ -116,10 +116,18 @@ func Discharge(vcs []*FuncVC, opts RunOpts) {
 					j.o.FullSeconds = fr.Seconds
 				}
 				if j.o.Cover && opts.Record && opts.Hints != nil && r.Status != "unsat" {
-					opts.Hints.Put(j.o.Name, []string{"cover:" + lineHash(q)})
+					opts.Hints.Put(j.o.Name, []string{"cover:" + rawHash(q)})
 				}
 				if j.o.Cover {
 					j.o.OK = r.Status != "unsat"
+					if !j.o.OK && strings.Contains(j.o.Desc, "return site") {
+						// unreachable from the precondition alone: defensive dead code, not a vacuous proof
+						er := RunQuery(opts.TmpDir, j.o.Name+".entry", j.vc.QueryEntryOnly(j.o), 2, solvers)
+						if er.Status == "unsat" {
+							j.o.OK = true
+							j.o.Result.Status = "dead-under-precondition"
+						}
+					}
 				} else {
 					j.o.OK = r.Status == "unsat"
 				}
